@@ -74,7 +74,8 @@ type harness struct {
 	timeout        bool
 	drift          int
 	closed         bool
-	fwd            bool // a forwarding session (fwd.go): records are prefixed with "F"
+	broken         map[string]bool // "sessions" / "archives": the directory has been moved away and replaced by a file
+	fwd            bool            // a forwarding session (fwd.go): records are prefixed with "F"
 	fmgr           *forwarding.Manager
 	fends          map[string]*fgated
 	fconns         []*countConn
@@ -806,7 +807,7 @@ func (h *harness) observe() {
 		if sid == "" {
 			return disk
 		}
-		sp := filepath.Join(h.dataDir, "sessions", sid)
+		sp := filepath.Join(h.storeDir("sessions"), sid)
 		if _, err := os.Stat(sp); err == nil {
 			disk["sessionFile"] = true
 			s := &synchronization.Session{}
@@ -814,7 +815,7 @@ func (h *harness) observe() {
 				disk["paused"] = s.Paused
 			}
 		}
-		ap := filepath.Join(h.dataDir, "archives", sid)
+		ap := filepath.Join(h.storeDir("archives"), sid)
 		if _, err := os.Stat(ap); err == nil {
 			a := &core.Archive{}
 			if encoding.LoadAndUnmarshalProtobuf(ap, a) == nil {
@@ -965,6 +966,61 @@ func (h *harness) replaceRoot(side string, tree *core.Entry) {
 	os.RemoveAll(root)
 	materialise(root, tree, fileContent)
 	h.emit(map[string]any{"ev": "Edit", "side": side, "what": "set"})
+}
+
+// storeDir is where the session files / archives really are at the moment.
+func (h *harness) storeDir(what string) string {
+	d := filepath.Join(h.dataDir, what)
+	h.mu.Lock()
+	defer h.mu.Unlock()
+	if h.broken[what] {
+		return d + ".away"
+	}
+	return d
+}
+
+// breakDir makes saving and removing in the sessions / archives directory fail for real: the directory is renamed
+// away and a regular file takes its place (WriteFileAtomic cannot create its temporary file, os.Remove gets ENOTDIR);
+// restoreDir undoes it. The files themselves are untouched.
+func (h *harness) breakDir(what string) {
+	d := filepath.Join(h.dataDir, what)
+	h.mu.Lock()
+	already := h.broken[what]
+	h.mu.Unlock()
+	if already {
+		return
+	}
+	if err := os.Rename(d, d+".away"); err != nil {
+		h.emit(map[string]any{"ev": "Infra", "what": "break: " + ascii(err.Error())})
+		return
+	}
+	os.WriteFile(d, []byte("not a directory"), 0o600)
+	h.mu.Lock()
+	if h.broken == nil {
+		h.broken = map[string]bool{}
+	}
+	h.broken[what] = true
+	h.emitLocked(map[string]any{"ev": "Break", "what": what, "on": true})
+	h.mu.Unlock()
+}
+
+func (h *harness) restoreDir(what string) {
+	d := filepath.Join(h.dataDir, what)
+	h.mu.Lock()
+	is := h.broken[what]
+	h.mu.Unlock()
+	if !is {
+		return
+	}
+	os.Remove(d)
+	if err := os.Rename(d+".away", d); err != nil {
+		h.emit(map[string]any{"ev": "Infra", "what": "restore: " + ascii(err.Error())})
+		return
+	}
+	h.mu.Lock()
+	h.broken[what] = false
+	h.emitLocked(map[string]any{"ev": "Break", "what": what, "on": false})
+	h.mu.Unlock()
 }
 
 // ---------------------------------------------------------------- the interpreter
@@ -1159,6 +1215,10 @@ func runCase(cs map[string]any, dir string, w io.Writer) {
 			}
 			time.Sleep(d)
 			h.settle(100 * time.Millisecond)
+		case "break":
+			h.breakDir(s.str("what"))
+		case "restore":
+			h.restoreDir(s.str("what"))
 		case "connect":
 			// consumed in advance (connPlan): dials are not gated
 		case "obs":
@@ -1166,7 +1226,9 @@ func runCase(cs map[string]any, dir string, w io.Writer) {
 		h.observe()
 	}
 
-	// free run: everything still gated may proceed; every command must return
+	// free run: the directories are back, everything still gated may proceed; every command must return
+	h.restoreDir("sessions")
+	h.restoreDir("archives")
 	h.setAuto(true)
 	allBack := h.waitAll()
 	h.settle(80 * time.Millisecond)
